@@ -705,12 +705,13 @@ fn main() {
         .filter(|&i| match &leaves[i].spec {
             Leaf::Everything => true,
             Leaf::Files(s) | Leaf::Prefix(s) => {
-                matches!(s.iter().map(|x| x.as_str()).collect::<Vec<_>>().as_slice(), ["a"] | ["a/b"] | ["a", "b/a"])
+                matches!(
+                    s.iter().map(|x| x.as_str()).collect::<Vec<_>>().as_slice(),
+                    ["a"] | ["a/b"] | ["a", "b/a"] | ["a/b", "a/b/a"]
+                )
             }
-            Leaf::Globs(_, pats) => {
-                pats.len() == 1 && matches!((pats[0].0.as_str(), pats[0].1.as_str()), ("", "**/b") | ("a", "*"))
-            }
-            _ => false,
+            Leaf::Globs(..) => true,
+            Leaf::Nothing => false,
         })
         .collect();
     let mut balanced_trees = 0;
@@ -781,10 +782,7 @@ fn main() {
              empty nor everything and at least one visit() answer prunes (Nothing, AllRecursively, or a set \
              that leaves out a/b/z)",
             if thorough {
-                format!(
-                    "(x, y any leaf, z from a {}-leaf core set) or (x, y core, z any leaf)",
-                    core.len()
-                )
+                "x, y, z any leaf".to_string()
             } else {
                 format!("x, y, z from a {}-leaf core set (one leaf per shape)", core.len())
             },
